@@ -508,6 +508,19 @@ def toupper_keeps_length(prog):
             names = {c['callee']['name'] for c in f.calls()}
             ok = f.body is not None and not (names & {'erase', 'resize', 'substr', 'pop_back', 'removeTrailingSpaces', 'assign', 'clear', 'push_back', 'append', 'insert', 'operator+=', 'replace'}) and \
                 ('transform' in names or 'toupper' in names)
+            if ok:
+                # what is handed back is a plain copy of the argument (then transformed in place), not a part of it
+                from paths import local_init as _liu
+                rets = [f.nodes[f.strip(r_['ch'][0], 'all')] for r_ in f.all_nodes({'ReturnStmt'}) if r_.get('ch')]
+                ok = bool(rets)
+                for r_ in rets:
+                    if r_['k'] == 'DeclRefExpr' and r_['decl'].get('dk') == 'local':
+                        ini = _liu(f, r_['decl']['id'])
+                        src = f.nodes[f.strip(ini, 'all')] if ini is not None else None
+                        if src is None or not (src['k'] == 'DeclRefExpr' and src['decl'].get('dk') == 'param'):
+                            ok = False
+                    else:
+                        ok = False
         except Exception:
             ok = False
         _UPPER_OK[key] = ok
@@ -1921,6 +1934,41 @@ def char_range_widening_rule(prog, res, rule='char-range'):
                          '(255 becomes 18446744073709551615), so a count or size stored in one unsigned byte is misread above 127' % m.group(1).strip(), function=f.sig, expr='char-range@%s' % f.name, sure=True)
     if not n:
         res.ok(rule, 'no range of plain char is converted into a container of unsigned integers', 'src/', function='', expr='char-range', nontrivial=False)
+    return n
+
+
+
+def unsigned_dest_rule(prog, res, rule='unsigned-dest'):
+    """a field read as an unsigned word lands in a member that can hold every value of that word: a member of a signed type that is
+    not wider than the word (short for a 16-bit word, char for a byte) sign-extends the upper half when the getter widens it again"""
+    n = 0
+    readers = [('ezc3d::Header', prog.fn('ezc3d::Header::read', nparams=1)),
+               ('ezc3d::ParametersNS::Parameters', prog.fn('ezc3d::ParametersNS::Parameters::Parameters', nparams=1)),
+               ('ezc3d::ParametersNS::GroupNS::Group', prog.fn('ezc3d::ParametersNS::GroupNS::Group::read', nparams=2)),
+               ('ezc3d::ParametersNS::GroupNS::Parameter', prog.fn('ezc3d::ParametersNS::GroupNS::Parameter::read', nparams=2))]
+    for cq, f in readers:
+        fields = {fl['name']: fl for fl in prog.classes.get(cq, {}).get('fields', [])}
+        seq = codec.Extractor(prog, 'r').seq_of(f)
+        for x in _walk({'items': seq}):
+            if not (isinstance(x, tuple) and x[0] == 'io' and x[1].get('k') == 'readUint'):
+                continue
+            d = x[1]
+            w = width_const(d)
+            m = re.match(r'^this\.(\w+)$', d.get('dest') or '')
+            if not w or not m or m.group(1) not in fields:
+                continue
+            fl = fields[m.group(1)]
+            if fl.get('tc') not in ('s', 'u') or not fl.get('tw'):
+                continue
+            n += 1
+            inst = '%s::%s <- unsigned %d-bit word' % (cq.split('::')[-1], fl['name'], 8 * w)
+            if (fl['tc'] == 's' and fl['tw'] <= 8 * w) or fl['tw'] < 8 * w:
+                res.viol(rule, inst, d['where'], 'the member is of type %s (%s, %d bits): the values %d..%d of the word do not fit and come back %s' %
+                         (fl.get('type'), 'signed' if fl['tc'] == 's' else 'unsigned', fl['tw'], 1 << (min(fl['tw'], 8 * w) - (1 if fl['tc'] == 's' else 0)), (1 << (8 * w)) - 1,
+                          'negative (sign-extended by the size_t getter)' if fl['tc'] == 's' else 'truncated'), function=f.sig, expr='dest:' + fl['name'], sure=True)
+            else:
+                res.ok(rule, inst, d['where'], 'member of type %s holds every value of the word' % fl.get('type'), function=f.sig, expr='dest:%s@%s' % (fl['name'], d['where']), nontrivial=False)
+    res.minimum('unsigned words read into members', n, 10)
     return n
 
 
